@@ -31,40 +31,42 @@ F = "cp_als.cp_als"
 
 
 def normal(prog: Program, res: Result) -> None:
+    """arrange() is an unconditional top-level statement after the last statement that can update the factors
+    (it then dominates the return), and fixsigns comes after it."""
     fi = prog.func(F)
     desc = "every path to the return passes arrange() after the last factor update, then (optionally) fixsigns()"
-    verdict, why, node = "OK", "", None
-    n_paths = 0
-    for items, end in enumerate_paths(fi.node.body, limit=100000):
-        if end != "return":
-            continue
-        n_paths += 1
-        last_update = last_arr = last_fix = -1
-        for i, (kind, st) in enumerate(items):
-            if kind != "stmt" and kind != "return":
-                continue
-            t = ast.unparse(st)
-            if isinstance(st, ast.Assign) and isinstance(st.targets[0], ast.Subscript) and isinstance(st.targets[0].value, ast.Name) \
-                    and st.targets[0].value.id == "U":
-                last_update = i
-            if isinstance(st, ast.Assign) and "ttb.ktensor(U" in t:
-                last_update = max(last_update, i)
-            if ".arrange(" in t:
-                last_arr = i
-            if ".fixsigns(" in t:
-                last_fix = i
-        if last_arr < last_update or last_arr < 0:
-            verdict, why = "BAD", "a path returns a model that was not arranged after its last factor update (not in normal form)"
-            node = items[-1][1]
-        elif last_fix >= 0 and last_fix < last_arr:
-            verdict, why = "BAD", "fixsigns() runs before arrange(): the normalisation afterwards can undo the sign convention"
-            node = items[-1][1]
-    if n_paths == 0:
-        res.undecided("NORMAL", F, desc, prog.loc(fi), "no returning path enumerated")
-    elif verdict == "OK":
-        res.ok("NORMAL", F, desc, prog.loc(fi), f"{n_paths} returning paths")
+    body = fi.node.body
+
+    def updates(st: ast.stmt) -> bool:
+        for n in ast.walk(st):
+            if isinstance(n, ast.Assign):
+                t = n.targets[0]
+                if isinstance(t, ast.Subscript) and isinstance(t.value, ast.Name) and t.value.id == "U":
+                    return True
+                if "ttb.ktensor(U" in ast.unparse(n.value):
+                    return True
+        return False
+
+    last_update = max([i for i, st in enumerate(body) if updates(st)], default=-1)
+    arr = [i for i, st in enumerate(body) if isinstance(st, ast.Expr) and isinstance(st.value, ast.Call) and isinstance(st.value.func, ast.Attribute)
+           and st.value.func.attr == "arrange"]
+    fix = [i for i, st in enumerate(body) if ".fixsigns(" in ast.unparse(st)]
+    rets = [i for i, st in enumerate(body) if isinstance(st, ast.Return)]
+    early = [n for i, st in enumerate(body[: (arr[-1] if arr else len(body))]) for n in ast.walk(st) if isinstance(n, ast.Return)]
+    if last_update < 0 or not rets:
+        res.undecided("NORMAL", F, desc, prog.loc(fi), "factor updates / return not found at the top level")
+        return
+    if not arr or arr[-1] < last_update:
+        nested = any(".arrange(" in ast.unparse(st) for st in body)
+        res.bad("NORMAL", F, desc, prog.loc(fi, body[last_update]),
+                "arrange() is " + ("only executed conditionally or before the last factor update" if nested else "never called")
+                + ": the returned model is not in normal form on some path")
+    elif early:
+        res.bad("NORMAL", F, desc, prog.loc(fi, early[0]), "a return statement precedes arrange(): that path hands back an un-arranged model")
+    elif fix and fix[-1] < arr[-1]:
+        res.bad("NORMAL", F, desc, prog.loc(fi, body[fix[-1]]), "fixsigns() runs before arrange(): the normalisation afterwards can undo the sign convention")
     else:
-        res.bad("NORMAL", F, desc, prog.loc(fi, node) if node is not None else prog.loc(fi), why)
+        res.ok("NORMAL", F, desc, prog.loc(fi, body[arr[-1]]), "arrange() dominates the return and follows the iteration")
 
 
 def fit(prog: Program, res: Result) -> None:
